@@ -949,3 +949,37 @@ m('c07-precision-round-truncates-first', ['C07'], 'with_precision_round:rounds-o
 m('c16-exp-format-truncates-before-rounding', ['C16'], 'format_exponential_bigendian_ascii_digits:point-and-exponent', [
   ('src/impl_fmt.rs', "            let delta_exp = round_ascii_digits(&mut digits, target_scale, rounder);", "            let dropped = digits.len() - (total_prec + 1);\n            digits.truncate(total_prec + 1);\n            let delta_exp = round_ascii_digits(&mut digits, target_scale, rounder) + dropped;")],
   '{:.Ne}: digits beyond the first dropped one are cut off before rounding: 1.2501 prints as 1.2e+0')
+# ---- powers of ten fit their integer type
+m('c11-multiply-by-ten-pow-20', ['C11', 'C18', 'C01'], 'POW-FITS', [
+  ('src/arithmetic/mod.rs', "    let pow = pow.to_u64().expect(\"exponent overflow error\");\n    if pow < 20 {", "    let pow = pow.to_u64().expect(\"exponent overflow error\");\n    if pow <= 20 {")],
+  '10u64.pow(20) overflows when cbrt pads exactly 20 zeros')
+m('c01-ten-to-the-uint-fast-path-21', ['C01', 'C18'], 'POW-FITS', [
+  ('src/arithmetic/mod.rs', "pub(crate) fn ten_to_the_uint(pow: u64) -> BigUint {\n    if pow < 20 {", "pub(crate) fn ten_to_the_uint(pow: u64) -> BigUint {\n    if pow < 21 {")],
+  'u64 fast path of ten_to_the_uint taken for 10^20')
+m('c01-half-by-div-rem-sign', ['C01', 'C19'], 'BigDecimal::half', [
+  ('src/lib.rs', """        } else if self.int_val.is_even() {
+            BigDecimal {
+                int_val: self.int_val.clone().div(2u8),
+                scale: self.scale,
+            }
+        } else {
+            BigDecimal {
+                int_val: self.int_val.clone().mul(5u8),
+                scale: self.scale + 1,
+            }
+        }""", """        } else {
+            let (quotient, remainder) = self.int_val.div_rem(&BigInt::from(2u8));
+            if remainder.is_zero() {
+                BigDecimal { int_val: quotient, scale: self.scale }
+            } else {
+                BigDecimal { int_val: quotient * 10u8 + 5u8, scale: self.scale + 1 }
+            }
+        }""")],
+  'half() through a truncating div_rem: the appended 5 has the wrong sign for negative odd coefficients')
+# ---- kernel gateways / division kernel table
+m('c12-inverse-bypasses-mirror', ['C12', 'C20'], 'impl_inverse_uint_scale:callers', [
+  ('src/lib.rs', "    pub fn inverse(&self) -> BigDecimal {\n        self.inverse_with_context(&Context::default())", "    pub fn inverse(&self) -> BigDecimal {\n        if self.is_zero() || self.is_one() {\n            return self.clone();\n        }\n        let ctx = Context::default();\n        let result = arithmetic::inverse::impl_inverse_uint_scale(self.int_val.magnitude(), self.scale, &ctx);\n        result.take_with_sign(self.sign())")],
+  'inverse() calls the magnitude kernel itself: Floor/Ceiling are not mirrored for negative operands under a directed default mode')
+m('c08-ref-kernel-magnitude-shortcut', ['C08'], 'kernel-table', [
+  ('src/impl_ops_div.rs', "        if num_int == den_int {", "        if num_int.magnitude() == den_int.magnitude() {")],
+  '&-x / &x returns +1')
